@@ -10,6 +10,8 @@ import (
 	"os/exec"
 	"path/filepath"
 	"runtime"
+	"runtime/debug"
+	"runtime/pprof"
 	"sort"
 	"strconv"
 	"strings"
@@ -27,8 +29,18 @@ func main() {
 	if len(os.Args) < 2 {
 		usage()
 	}
+	debug.SetGCPercent(400)
+	if pf := os.Getenv("VERIF_PROF"); pf != "" {
+		f, _ := os.Create(pf)
+		pprof.StartCPUProfile(f)
+		defer pprof.StopCPUProfile()
+	}
 	switch os.Args[1] {
 	case "check":
+		code := cmdCheck(os.Args[2:])
+		pprof.StopCPUProfile()
+		os.Exit(code)
+	case "check-noprof":
 		os.Exit(cmdCheck(os.Args[2:]))
 	case "replay":
 		os.Exit(cmdReplay(os.Args[2:]))
